@@ -51,6 +51,16 @@ def analyse_direction(ctx, name):
     repo = ctx.repo
     cls = repo.cls(FILE, CLS)
     fn = repo.method(FILE, CLS, name)
+    # simple private helpers (key derivation, tag computation) are inlined: the facts below are about the whole direction
+    from ..repo import inline_private_calls
+    from ..normalize import guarded_returns_to_ifexp
+    def straight_line(name):
+        # a helper with branches or loops around the key derivation (a cache, a retry) is judged on its own paths by
+        # helper_derivation below, not flattened into the caller
+        k_, h_ = repo.find_method(cls, name)
+        derives = h_ is not None and any(isinstance(c, ast.Call) and isinstance(c.func, ast.Attribute) and c.func.attr == "deriveSecrets" for c in ast.walk(h_))
+        return h_ is not None and not (derives and any(isinstance(x, (ast.If, ast.For, ast.While, ast.Try)) for x in ast.walk(h_)))
+    fn = inline_private_calls(repo, cls, fn, only=straight_line, helper_transform=guarded_returns_to_ifexp)
     ev = Evaluator(repo, cls.module, cls)
     g = CFG(fn)
     pe = PathEval(fn, ev)
@@ -148,11 +158,14 @@ def kdf_facts(r, ctx=None):
         facts["mac"] = interval(hm[0]["args"][0], derived)
         facts["digestmod"] = dict(hm[0]["kwargs"]).get("digestmod") or (hm[0]["args"][2] if len(hm[0]["args"]) > 2 else None)
         facts["mac_result"] = hm[0]["result"]
+        # hmac.new(key, msg, digestmod): the initial message is the first thing the MAC covers
+        msg0 = dict(hm[0]["kwargs"]).get("msg") or (hm[0]["args"][1] if len(hm[0]["args"]) > 1 else None)
+        facts["mac_initial"] = msg0 if msg0 is not None and msg0 != ("const", None) else None
     return facts
 
 
-def mac_updates(r, macres):
-    ups = []
+def mac_updates(r, macres, initial=None):
+    ups = [initial] if initial is not None else []
     for e in r["events"]:
         if e["func"] == "update" and e["recv"] == macres:
             ups.append(e["args"][0] if e["args"] else None)
@@ -184,6 +197,82 @@ def is_cipher_out(t, which):
     if isinstance(c, tuple) and c[0] == "call" and c[1] == which:
         return a[3][0] if a[3] else None
     return None
+
+
+def cipher_chain(t, which):
+    """t == <c>.update(x1) + <c>.update(x2) + ... + <c>.finalize() with c = Cipher(...).<which>() -> [x1, x2, ...]"""
+    parts = []
+
+    def flat(x):
+        if isinstance(x, tuple) and x[0] == "bin" and x[1] == "Add":
+            flat(x[2])
+            flat(x[3])
+        else:
+            parts.append(x)
+    flat(t)
+    if len(parts) < 2 or not all(isinstance(p_, tuple) and p_[0] == "call" for p_ in parts):
+        return None
+    c = parts[0][2]
+    if not (isinstance(c, tuple) and c[0] == "call" and c[1] == which):
+        return None
+    if any(p_[2] != c for p_ in parts) or parts[-1][1] != "finalize" or any(p_[1] != "update" or len(p_[3]) != 1 for p_ in parts[:-1]):
+        return None
+    return [p_[3][0] for p_ in parts[:-1]]
+
+
+def eval_bytes_term(t, plain):
+    """value of a byte-building term when the plaintext parameter is `plain` (bytes); None if not evaluable"""
+    if not isinstance(t, tuple):
+        return None
+    k = t[0]
+    if k == "const":
+        return t[1]
+    if k == "param":
+        return plain
+    if k in ("tuple",):
+        xs = [eval_bytes_term(x, plain) for x in t[1:]]
+        return None if any(x is None for x in xs) else list(xs)
+    if k == "bin":
+        a, b = eval_bytes_term(t[2], plain), eval_bytes_term(t[3], plain)
+        if a is None or b is None:
+            return None
+        try:
+            import operator
+            return {"Add": operator.add, "Sub": operator.sub, "Mult": operator.mul, "Mod": operator.mod, "FloorDiv": operator.floordiv, "BitAnd": operator.and_}[t[1]](a, b)
+        except Exception:
+            return None
+    if k == "call" and t[2] is None and t[1] in ("len", "bytes", "bytearray", "chr", "int") and not t[4]:
+        args = [eval_bytes_term(x, plain) for x in t[3]]
+        if any(a is None for a in args):
+            return None
+        try:
+            return {"len": len, "bytes": bytes, "bytearray": bytearray, "chr": chr, "int": int}[t[1]](*args)
+        except Exception:
+            return None
+    if k == "call" and t[1] == "to_bytes" and t[2] is not None:
+        v = eval_bytes_term(t[2], plain)
+        args = [eval_bytes_term(x, plain) for x in t[3]]
+        try:
+            return v.to_bytes(*args)
+        except Exception:
+            return None
+    return None
+
+
+def manual_pkcs7(inputs, p0, block=16):
+    """encryptor inputs [plaintext parameter, padding term]: the padding term evaluates to PKCS7 padding for every
+    plaintext length 0 .. 3 blocks (the term depends on the length only through len(p) % block: checked, not assumed,
+    by the range).  -> True / False / None (not evaluable)"""
+    if len(inputs) != 2 or inputs[0] != p0:
+        return None
+    for n in range(0, 3 * block + 1):
+        v = eval_bytes_term(inputs[1], b"\x00" * n)
+        if v is None:
+            return None
+        k = block - n % block
+        if bytes(v) != bytes([k]) * k:
+            return False
+    return True
 
 
 def rule_use(ctx):
@@ -280,6 +369,13 @@ def run(ctx):
     blk_e = set()
     for r in eres:
         ups = [e for e in r["events"] if e["func"] == "update" and isinstance(e["recv"], tuple) and e["recv"][0] == "call" and e["recv"][1] == "encryptor"]
+        if len(ups) == 2 and all(len(u["args"]) == 1 for u in ups):
+            # hand-made padding fed as a second chunk: judged by evaluating the padding term for every length class
+            mp = manual_pkcs7([u["args"][0] for u in ups], ("param", eps[0]))
+            enc_padded.append(mp)
+            if mp:
+                blk_e.add(128)
+            continue
         if len(ups) != 1:
             enc_padded.append(None)
             continue
@@ -316,21 +412,21 @@ def run(ctx):
     # ---------------- mac
     T_enc = set()
     for r, f in zip(eres, ef):
-        ups = mac_updates(r, f.get("mac_result"))
+        ups = mac_updates(r, f.get("mac_result"), f.get("mac_initial"))
         ret = r["ret"]
         okshape = False
         if isinstance(ret, tuple) and ret[0] == "bin" and ret[1] == "Add":
             ct, tag = ret[2], ret[3]
             if tag[0] == "slice" and tag[2] == ("const", None) and tag[1][0] == "call" and tag[1][1] == "digest" and tag[1][2] == f.get("mac_result"):
                 T_enc.add(cint(tag[3]))
-                okshape = len(ups) == 2 and interval(ups[0], f["derived"]) == f.get("iv") and ups[1] == ct and is_cipher_out(ct, "encryptor") is not None
+                okshape = len(ups) == 2 and interval(ups[0], f["derived"]) == f.get("iv") and ups[1] == ct and (is_cipher_out(ct, "encryptor") is not None or cipher_chain(ct, "encryptor") is not None)
         ctx.check("C15.mac", okshape, We, "return " + show(ret)[:100],
                   "encrypt must return ciphertext + HMAC(iv || ciphertext)[:T]; MAC updates were %s" % [show(u) for u in ups],
                   "ciphertext || HMAC(iv || ciphertext)[:%s]" % sorted(T_enc))
     T_dec = set()
     cmp_nodes = []
     for r, f in zip(dres, df):
-        ups = mac_updates(r, f.get("mac_result"))
+        ups = mac_updates(r, f.get("mac_result"), f.get("mac_initial"))
         p0 = ("param", dps[0])
         found = False
         for (n, t, kind) in r["conds"]:
